@@ -86,3 +86,27 @@ Definition fault (savemask : bool) (s : sigst) : sigst :=
 
 Fixpoint faults (savemask : bool) (n : nat) (s : sigst) : sigst :=
   match n with O => s | S n' => faults savemask n' (fault savemask s) end.
+
+(* ---------- FitIntSize: bounds of slice expressions and make ---------- *)
+(* A bound of an integer type wider than int is narrowed before the runtime
+   check (NewSlice3 / StringSlice / MakeSlice).  fixed = false: plain
+   truncation (pinned tree); fixed = true: a value that does not survive the
+   round trip is replaced by -1, which every runtime check rejects. *)
+Definition recipe_fit (fixed : bool) (tn : ity) (pw : Z) : func :=
+  if bits tn =? pw then {| nparams := 1; body := []; ret := Val 0; retw := pw |}
+  else if bits tn <? pw then
+    {| nparams := 1; body := [cast_instr tn {| bits := pw; sg := true |} (Val 0)]; ret := Val 1; retw := pw |}
+  else if fixed then
+    {| nparams := 1;
+       body := [ICast Trunc (bits tn) pw (Val 0);
+                ICast SExt pw (bits tn) (Val 1);
+                ICmp Peq (bits tn) (Val 2) (Val 0);
+                ISelect pw (Val 3) (Val 1) (Cst (-1))];
+       ret := Val 4; retw := pw |}
+  else
+    {| nparams := 1; body := [ICast Trunc (bits tn) pw (Val 0)]; ret := Val 1; retw := pw |}.
+
+(* the runtime checks compare the narrowed values as signed ints against
+   lengths/capacities below 2^(pw-1): what matters is that a value is a valid
+   bound (0 <= v <= limit) after narrowing iff it was one before, and unchanged *)
+Definition bound_ok (limit v : Z) : bool := (0 <=? v) && (v <=? limit).
